@@ -613,6 +613,7 @@ LawConj(z) == LET c == A!GConj(z) IN
   /\ A!GMul(z, c) = GR(A!GAbs2(z))
 LawAbsMultiplicative(z, w) == A!GAbs2(A!GMul(z, w)) = Mul(A!GAbs2(z), A!GAbs2(w))
 LawUnit == A!GMul(II, II) = GI(-1) /\ A!GIPow(II, 4) = GI(1)
+ASSUME LawUnit
 \* arctan2: symmetries of the octant table, and the exact angles have the right tangent / are on the right axis
 NegIv(iv) == <<Neg(iv[2]), Neg(iv[1])>>
 LawAngle(x, y) == (x[1] # 0 \/ y[1] # 0) =>
